@@ -343,8 +343,78 @@ class World:
         raise tlc.MachineryError('unknown event %r' % (ev,))
 
 
-def replay(history, owners=('o1', 'o2', 'o3', 'o4')):
-    """Replay one history [(ev, [args])] on a fresh directory; returns trace lines."""
+# ---------------------------------------------------------------------------
+# a garbage collection pass with the environment acting in the middle of it
+_READS = ('listdir', 'stat', 'lstat', 'readlink', 'scandir')
+
+
+def gc_pass(w, db, sched, emit):
+    """Run the real garbage_collect of database `db`; after its k-th directory read
+    (os.listdir/stat/lstat/readlink/scandir on a path of this node directory; the
+    read returns what it saw *before* the environment acted, as it would with a
+    second process) run the environment actions sched[str(k)].  sched['0'] runs
+    before the call.  Lines: GcBegin, [env...], GcRun (the stretch up to read k),
+    [env...], ..., GcEnd.  Actions scheduled after a read the pass never makes are
+    run after it, as ordinary calls.  No patch is left active."""
+    gc = {'vips': w.vipmgr.garbage_collect, 'rules': w.rulemgr.garbage_collect,
+          'specs': lambda: w.m_endpoints.garbage_collect(w.ep_dir)}[db]
+    sched = {str(k): [(e, [str(x) for x in a]) for e, a in v] for k, v in sched.items()}
+
+    def env(evs):
+        for ev, a in evs:
+            emit(ev, a, w.apply(ev, a))
+    w.excname = ''
+    emit('GcBegin', [db], 'ok')
+    env(sched.pop('0', []))
+    st = dict(n=0, busy=False)
+
+    def after_read():
+        if st['busy']:
+            return
+        st['n'] += 1
+        evs = sched.pop(str(st['n']), None)
+        if evs:
+            st['busy'] = True
+            try:
+                w.excname = ''
+                emit('GcRun', [db], 'ok')
+                env(evs)
+            finally:
+                st['busy'] = False
+
+    def wrap(real):
+        def hooked(path, *a, **kw):
+            ours = isinstance(path, (str, bytes)) and os.fsdecode(path).startswith(w.scratch)
+            try:
+                return real(path, *a, **kw)
+            finally:
+                if ours:
+                    after_read()
+        return hooked
+    patches = [mock.patch.object(os, f, wrap(getattr(os, f))) for f in _READS]
+    for p in patches:
+        p.start()
+    try:
+        w.excname = ''
+        try:
+            gc()
+            res = 'ok'
+        except tlc.MachineryError:
+            raise
+        except Exception as err:  # pylint: disable=W0703
+            res = 'raise'
+            w.excname = type(err).__name__
+    finally:
+        for p in patches:
+            p.stop()
+    emit('GcEnd', [db], res)
+    for k in sorted(sched, key=int):
+        env(sched[k])
+
+
+def replay(history, owners=('o1', 'o2', 'o3', 'o4', 'o5', 'o6')):
+    """Replay one history on a fresh directory; returns trace lines.  Items are
+    (ev, [args]) or ('GcPass', [db], {k: [(ev, [args]), ...]})."""
     core.ensure_repo_on_path()
     from treadmill import iptables, netdev
     from treadmill.services import network_service
@@ -362,14 +432,19 @@ def replay(history, owners=('o1', 'o2', 'o3', 'o4')):
             os.symlink(via, os.path.join(root, 'link'))
             via = os.path.join(root, 'link')
         w = World(via, owners)
-        lines = [dict(ev='Init', args=[], res='ok', exc='', post=w.project())]
+        w.scratch = (root, os.path.realpath(root))
+        lines = [dict(ev='Init', args=[], res='ok', exc='', h=-1, post=w.project())]
         with mock.patch.multiple(netdev, **w.net.patches()), \
                 mock.patch.object(iptables, '_ipset', w.ipset), \
                 mock.patch.object(network_service.NetworkResourceService, '_TM_CIDR', CIDR):
-            for ev, a in history:
-                a = [str(x) for x in a]
-                res = w.apply(ev, a)
-                lines.append(dict(ev=ev, args=a, res=res, exc=w.excname, post=w.project()))
+            for h, item in enumerate(history):
+                def emit(ev, a, res, _h=h):
+                    lines.append(dict(ev=ev, args=a, res=res, exc=w.excname, h=_h, post=w.project()))
+                if item[0] == 'GcPass':
+                    gc_pass(w, str(item[1][0]), item[2], emit)
+                    continue
+                a = [str(x) for x in item[1]]
+                emit(item[0], a, w.apply(item[0], a))
         return lines
     finally:
         logging.disable(logging.NOTSET)
@@ -398,6 +473,11 @@ FOCUS = {
     'svc': ['OwnerAppears', 'OwnerDisappears', 'SvcStart', 'Import', 'Synchronize', 'OnCreate',
             'OnDelete'],
 }
+_GC = ['GcBegin', 'GcList', 'GcVisit', 'GcEnd']
+FOCUS['gcvip'] = ['OwnerAppears', 'OwnerDisappears', 'VipAlloc', 'VipFree'] + _GC
+FOCUS['gcrule'] = ['OwnerAppears', 'OwnerDisappears', 'RuleCreate', 'RuleUnlink'] + _GC
+FOCUS['gcspec'] = ['OwnerAppears', 'OwnerDisappears', 'SpecCreate', 'SpecUnlink'] + _GC
+FOCUS['gc'] = sorted(set(FOCUS['gcvip'] + FOCUS['gcrule'] + FOCUS['gcspec']))
 FOCUS['mgr'] = sorted(set(FOCUS['vip'] + FOCUS['rule'] + FOCUS['spec']))
 
 
@@ -429,14 +509,37 @@ def mc_files(focus, max_events, owners=3, hosts=2, rules=2, specs=3, defects=(),
 
 
 def history_of(labels):
-    """TLC labels -> [(ev, [args])] (actions without a guard are labelled Advance)."""
+    """TLC labels -> history.  A stepped pass GcBegin .. GcList/GcVisit .. GcEnd with
+    environment actions in between becomes one ('GcPass', [db], {k: [...]}) item:
+    actions after the k-th step of the model's pass (GcList is the first) are
+    scheduled after the k-th directory read of the real pass."""
     out = []
+    cur = None
     for name, args in labels:
         if name == 'Advance':
-            out.append((args[0], [str(x) for x in args[1]]))
+            name, args = args[0], list(args[1])
+        args = [str(x) for x in args]
+        if name == 'GcBegin':
+            cur = ['GcPass', [args[0]], {}]
+            out.append(cur)
+            steps = 0
+        elif cur is not None and name in ('GcList', 'GcVisit'):
+            steps += 1
+        elif cur is not None and name == 'GcEnd':
+            cur = None
+        elif cur is not None:
+            cur[2].setdefault(str(steps), []).append([name, args])
         else:
-            out.append((name, [str(x) for x in args]))
+            out.append((name, args))
     return out
+
+
+def show(item):
+    if item[0] == 'GcPass':
+        return 'GcPass(%s; %s)' % (item[1][0], '; '.join(
+            'after read %s: %s' % (k, ' '.join('%s(%s)' % (e, ','.join(a)) for e, a in v))
+            for k, v in sorted(item[2].items(), key=lambda kv: int(kv[0]))))
+    return '%s(%s)' % (item[0], ','.join(str(x) for x in item[1]))
 
 
 # ---------------------------------------------------------------------------
@@ -447,10 +550,45 @@ def gen_random(rng, depth, mode):
     live = set()
     hist = []
     if mode == 'mgr':
-        taken = {}
+        used = set()        # owners that were ever granted something (not "new" any more)
+        late = ['o5', 'o6']  # owners that only ever appear in the middle of a pass
+        entries = dict(vips=None, rules=['r1', 'r2', 'r3', 'r4'], specs=sorted(SPECAPP))
+        create = dict(vips='VipAlloc', rules='RuleCreate', specs='SpecCreate')
+
+        def mid_gc_events(db):
+            """what the environment may do while a pass runs (guards of Owners.tla)"""
+            evs = []
+            for _ in range(rng.choice([1, 1, 2])):
+                q = rng.random()
+                fresh = [x for x in owners + late if x not in live and x not in used]
+                if q < 0.6 and fresh:
+                    o = rng.choice(fresh)
+                    live.add(o)
+                    used.add(o)
+                    evs.append(['OwnerAppears', [o]])
+                    evs.append([create[db], [o] + ([rng.choice(entries[db])] if entries[db] else [])])
+                elif q < 0.8 and live:
+                    o = rng.choice(sorted(live))
+                    used.add(o)
+                    evs.append([create[db], [o] + ([rng.choice(entries[db])] if entries[db] else [])])
+                elif live:
+                    o = rng.choice(sorted(live))
+                    live.discard(o)
+                    evs.append(['OwnerDisappears', [o]])
+            return evs
         for _ in range(depth):
             r = rng.random()
             o = rng.choice(owners)
+            if r < 0.10:
+                db = rng.choice(['rules', 'rules', 'vips', 'specs'])
+                sched = {}
+                for k in sorted(rng.sample([0, 1, 1, 2, 3, 4], rng.choice([1, 1, 2]))):
+                    evs = mid_gc_events(db)
+                    if evs:
+                        sched.setdefault(str(k), []).extend(evs)
+                hist.append(('GcPass', [db], sched))
+                continue
+            r = (r - 0.10) / 0.90
             if r < 0.12:
                 cand = [x for x in owners if x not in live]
                 if cand:
@@ -463,20 +601,24 @@ def gen_random(rng, depth, mode):
                     live.discard(o)
                     hist.append(('OwnerDisappears', [o]))
             elif r < 0.42:
+                used.add(o)
                 hist.append(('VipAlloc', [o]))
             elif r < 0.47:
+                used.add(o)
                 hist.append(('VipAllocPicked', [o, rng.choice(hosts + OUTSIDE)]))
             elif r < 0.57:
                 hist.append(('VipFree', [o, rng.choice(hosts)]))
             elif r < 0.61:
                 hist.append(('VipGC', []))
             elif r < 0.70:
+                used.add(o)
                 hist.append(('RuleCreate', [o, rng.choice(['r1', 'r2', 'r3', 'r4'])]))
             elif r < 0.77:
                 hist.append(('RuleUnlink', [o, rng.choice(['r1', 'r2', 'r3', 'r4'])]))
             elif r < 0.80:
                 hist.append(('RuleGC', []))
             elif r < 0.88:
+                used.add(o)
                 hist.append(('SpecCreate', [o, rng.choice(sorted(SPECAPP))]))
             elif r < 0.93:
                 hist.append(('SpecUnlink', [o, rng.choice(sorted(SPECAPP))]))
@@ -484,7 +626,6 @@ def gen_random(rng, depth, mode):
                 hist.append(('SpecUnlinkAll', [o, rng.choice(sorted(APPS))]))
             else:
                 hist.append(('SpecGC', []))
-        del taken
         return hist
     # service mode: the guards of Owners.tla (the service loop's own discipline)
     phase, pend, imp = 'down', set(), set()
